@@ -67,6 +67,7 @@ def _run_shard(args):
     evals = 0
     nt: List[int] = []
     outcomes: Counter = Counter()
+    counters: Counter = Counter()
     fails = []
     nfail_keys: Counter = Counter()
     samples = []
@@ -77,6 +78,8 @@ def _run_shard(args):
         r = _judge(sl, case)
         evals += 1
         outcomes[r.outcome] += 1
+        if r.counts:
+            counters.update(r.counts)
         if r.nontrivial:
             h = core.h64((sl.name, case))
             nt.append(h)
@@ -97,6 +100,7 @@ def _run_shard(args):
         evals=evals,
         nt=np.asarray(nt, dtype="uint64"),
         outcomes=outcomes,
+        counters=counters,
         fails=fails,
         fail_counts=nfail_keys,
         samples=samples,
@@ -139,6 +143,7 @@ def run_slices(ctx: Ctx, slices: List[Slice], pool_jobs: Optional[int] = None) -
         ctx.evaluations += res["evals"]
         ctx.nontrivial_hashes.append(res["nt"])
         ctx.outcomes.update(res["outcomes"])
+        ctx.counters.update(res["counters"])
         for key, msg, case in res["fails"]:
             ctx.add_violation(key, msg, slices[res["si"]].name, case, count=0)
         for key, cnt in res["fail_counts"].items():
